@@ -168,6 +168,14 @@ CASES = [
     ("r-closure", "fn f(a: u32) -> u32 { let g = |x: u32| x + 1; g(a) }", ("refuse", "closure")),
     ("r-mut-opaque", "fn f(t: &mut Transaction) { }", ("refuse", "&mut parameter of an opaque type")),
     ("r-orbind", "fn f(e: E) -> u32 { match e { E::A(n) | E::A(n) => n, _ => 0 } }", ("refuse", "or-pattern that binds")),
+    # (b1012, round 9) `x.into()` between two structs of the unit = the one `impl From<_> for T`; no such impl / no wanted type: refused
+    ("intofrom", "pub struct T { pub a: u64 }\nimpl From<S> for T { fn from(s: S) -> Self { T { a: s.a } } }\nfn f(s: S) -> T { s.into() }",
+     ("expect", ["T.«from» s", "a := s.a"])),
+    ("itermut", "impl S { fn f(&mut self) { for b in self.v.iter_mut() { *b = 0; } } }", ("expect", ["v := (self.v.map (fun b => 0))"]), ("S", "f")),
+    ("r-itermut", "impl S { fn f(&mut self) { for b in self.v.iter_mut() { *b = 0; self.a = 1; } } }", ("refuse", "iter_mut"), ("S", "f")),
+    ("r-into-noimpl", "pub struct T { pub a: u64 }\nfn f(s: S) -> T { s.into() }", ("refuse", "without a known widening target")),
+    ("r-into-wrongarg", "pub struct T { pub a: u64 }\npub struct W { pub a: u64 }\nimpl From<W> for T { fn from(s: W) -> Self { T { a: s.a } } }\nfn f(s: S) -> T { s.into() }",
+     ("refuse", "without a known widening target")),
 ]
 
 
